@@ -33,7 +33,7 @@ import tempfile
 import time
 
 from . import mcgen, tlaval, tlc
-from .common import CheckResult, Scratch, parallel, rng, seed
+from .common import CheckResult, Scratch, parallel, rng
 from .mcgen import Raw
 from .realobj import ns, us
 
@@ -88,12 +88,11 @@ def slices(size: str) -> dict:
     # --- key slices: the policy key varies over 0..3 / three slack levels (ties abound),
     # one resource name, 1-3 single-worker pools of capacity 2 with 0..2 free
     kpools = [[_pool(a) for a in avs] for avs in ([[1]], [[2]], [[0], [2]], [[1], [1]], [[1], [2]], [[2], [1]], [[1], [1], [1]])]
-    two = [[_st([1], 1)], [_st([2], 2)]] + ([[_st([2], 1), _st([1], 2)]] if big else [])
+    two = [[_st([1], 1)], [_st([2], 2)]]
     s["edf"] = dict(Kinds=["EDF"], Now=3, MaxTasks=n, KeyProfiles=_profiles(range(4), (0,), (0, 1)), StratLists=two, PoolSeqs=kpools)
     s["fifo"] = dict(Kinds=["FIFO"], Now=3, MaxTasks=n, KeyProfiles=_profiles((5,), range(4), (0, 1)), StratLists=two, PoolSeqs=kpools)
     s["lsf"] = dict(
-        Kinds=["LSF"], Now=2, MaxTasks=n,
-        KeyProfiles=_profiles((5, 6, 7, 8) if big else (5, 6, 7), (0,), (0,)),
+        Kinds=["LSF"], Now=2, MaxTasks=n, KeyProfiles=_profiles((5, 6, 7), (0,), (0,)),
         # slack = deadline - now - slowest runtime: the slowest strategy is first / last / only
         StratLists=[[_st([1], 1)], [_st([1], 2)], [_st([2], 2)], [_st([2], 1), _st([1], 3)], [_st([1], 3), _st([2], 1)]],
         PoolSeqs=kpools,
@@ -109,8 +108,8 @@ def slices(size: str) -> dict:
     avs = [[0, 1], [1, 0], [1, 1], [2, 1]]
     prof = [{"deadline": 5, "release": 1, "graph": 0}, {"deadline": 7, "release": 0, "graph": 0}]
     if big:
-        lists += [[_st([1, 1], 2), _st([1, 0], 1)], [_st([0, 1], 2)], [_st([2, 1], 2), _st([0, 1], 1)]]
-        avs += [[0, 0], [1, 2]]
+        lists += [[_st([1, 1], 2), _st([1, 0], 1)], [_st([2, 1], 2), _st([0, 1], 1)]]
+        avs += [[0, 0]]
         prof += [{"deadline": 7, "release": 1, "graph": 1}]
     three = [[_pool(a), _pool(b), _pool(c)] for a, b, c in (([1, 0], [0, 1], [1, 1]), ([0, 1], [0, 1], [2, 0]), ([0, 0], [1, 0], [1, 2]))]
     s["fit"] = dict(Kinds=list(KINDS), Now=2, MaxTasks=3, KeyProfiles=prof, StratLists=lists, PoolSeqs=_pool_seqs(avs, (1, 2)) + three)
@@ -456,6 +455,10 @@ def realize(kind, inst):
                 if si == 0 and es is not None:
                     si = next((k + 1 for k, s in enumerate(sts) if s.id == es.id), 0)
                 place[ti] = {"placed": True, "pool": pool_ix.get(pl.worker_pool_id, 0), "strat": si}
+                if place[ti]["pool"] == 0 or si == 0:
+                    # a pool / strategy that is not part of the instance: nothing C13 can judge (C10)
+                    info["not_offered"] = ["unknown pool or strategy in placement", ti + 1, str(pl)]
+                    return None, None, None, None, info
                 if pl.worker_id is not None:
                     info["worker_id_reported"] = True
     except Exception as ex:  # the call has no answer: nothing is placed (TLC judges that)
@@ -562,7 +565,7 @@ def judge(part, recs, fails, phase, gating=True):
             n["count"] += 1
             if len(n["samples"]) < 2:
                 n["samples"].append(detail)
-        if not gating:
+        if not gating and set(cl) - {"model.coded_eq"}:
             combo = f"{rec['kind']}: " + "+".join(sorted(c for c in cl if c != "model.coded_eq"))
             part["info"][combo] = part["info"].get(combo, 0) + 1
     for rec in recs:
@@ -638,7 +641,7 @@ def absorb_records(res, phase, outs):
         e["samples"] = (e["samples"] + n["samples"])[:2]
     res.samples += tot["samples"][:3]
     if tot["skipped"]:
-        res.notes.append(f"{phase}: {tot['info'].get('not_offered', 0)} instances were not offered completely by get_schedulable_tasks (C18 territory), e.g. {tot['skipped'][0]}")
+        res.notes.append(f"{phase}: {tot['info'].get('not_offered', 0)} calls could not be judged (tasks not offered by get_schedulable_tasks, or a placement naming a pool / strategy outside the instance; C18 / C10 territory), e.g. {tot['skipped'][0]}")
     # smallest failing instances first, one violation per distinct input
     seen = set()
     for d in sorted(tot["viol"], key=lambda d: inst_size(d["inst"])):
@@ -797,7 +800,7 @@ def run(tier: str) -> CheckResult:
     phases = os.environ.get("VERIF_C13_PHASES", "MRTX").upper()
     t0 = time.time()
     # ---- M
-    m_jobs = enum_jobs(small, lambda tag, b: 5 if tag == "fit" else 2, inv, "small")
+    m_jobs = enum_jobs(small, lambda tag, b: 3 if tag == "fit" else 2, inv, "small")
     m_jobs += enum_jobs(large, lambda tag, b: 16, inv, "large")
     if "M" not in phases:
         m_jobs = []
@@ -805,19 +808,19 @@ def run(tier: str) -> CheckResult:
     r_specs = []
     for tag, b in small.items():
         if q:
-            insts = sample_bound(b, 700 if tag == "fit" else 1000, rng(f"c13-R-{tag}"))
+            insts = sample_bound(b, 600 if tag == "fit" else 800, rng(f"c13-R-{tag}"))
         else:
             insts = list(enumerate_bound(b))
         r_specs.append((tag, b, [(kind, i, True) for i in insts for kind in b["Kinds"]], True))
     for tag, b in large.items():
         insts = sample_bound(b, int(10000 * scale), rng(f"c13-RL-{tag}"))
         r_specs.append((f"large-{tag}", b, [(kind, i, True) for i in insts for kind in b["Kinds"]], True))
-    r_jobs = record_jobs("R", r_specs if "R" in phases else [], 1100 if q else 4000)
+    r_jobs = record_jobs("R", r_specs if "R" in phases else [], 2000 if q else 4000)
     res.extra["R_instances"] = sum(len(sp[2]) // len(sp[1]["Kinds"]) for sp in r_specs)
     # ---- T
     r = rng("c13-T")
-    items = [(KINDS[i % 3], random_instance(r), False) for i in range(1500 if q else int(40000 * scale))]
-    t_jobs = record_jobs("T", [("random", NO_BOUND, items, True)] if "T" in phases else [], 750 if q else 4000)
+    items = [(KINDS[i % 3], random_instance(r), False) for i in range(1200 if q else int(40000 * scale))]
+    t_jobs = record_jobs("T", [("random", NO_BOUND, items, True)] if "T" in phases else [], 1200 if q else 4000)
     # ---- X
     xe_jobs, xr_jobs = ([], []) if q or "X" not in phases else explore_jobs(tier)
     jobs = m_jobs + r_jobs + t_jobs + xe_jobs + xr_jobs
